@@ -170,6 +170,15 @@ pub fn run_agenda(s: &mut Src, ctx: &mut Ctx) -> Verdict {
 
     let base = Instant::now();
     let mut ag = AdvancedAgenda::new();
+    // an agenda that is not new (every third random case by length; a pure function of the case): 70 activations of
+    // another rule were queued and taken off again, without being marked fired
+    if ctx.exh == 0 && case.ops.len() % 3 == 0 {
+        for _ in 0..70 {
+            ag.add_activation(Activation::new("warm".to_string(), 0));
+            let _ = ag.get_next_activation();
+        }
+        ctx.label("agenda-not-new(warm-up)");
+    }
     let mut pending: Vec<Item> = Vec::new();
     let mut fired_rules: BTreeSet<usize> = BTreeSet::new();
     let mut fired_groups: BTreeSet<usize> = BTreeSet::new();
